@@ -164,6 +164,26 @@ IIncDec(kind, tl, ml) ==
               ELSE IAsIf(tl, IBin("add", new.t, new.r, "int", back.r))
   IN [t |-> val.t, r |-> val.r, obj |-> Store(tl, new.r)]
 
+(* pointers (parse.c new_add / new_sub; addresses are WL-bit registers, rp = base + k * s):
+   p + i  ->  ND_ADD(p, ND_MUL(i, new_long(s)))   the ND_MUL gets usual_arith_conv against the long
+              literal (so i is sign- or zero-extended by the cast table), the ND_ADD is 64-bit because
+              lhs->ty->base; i + p is canonicalised to p + i
+   p - i  ->  ND_SUB(p, ND_MUL(i, new_long(s))) with node->ty preset (no conversion of the operands)
+   p - q  ->  ND_DIV(ND_SUB(p, q) : long, new_num(s))   signed 64-bit division
+   p < q  ->  usual_arith_conv leaves pointer types; 64-bit cmp; setb/setbe (pointer_to: is_unsigned) *)
+IPtrArith(op, rp, a, ra, s) ==
+  LET ct  == Common(a, "long")
+      off == BinReg("mul", ct, ICast(a, ct, ra), U(s, WL))
+  IN IF op = "psub" THEN U(rp - off, WL) ELSE U(rp + off, WL)
+IPtrRel(op, rp, rq, s) ==
+  CASE op = "pdiff" -> IR("long", BinReg("div", "long", U(rp - rq, WL), U(s, WL)))
+    [] op = "plt" -> IR("int", BinReg("lt", "ulong", rp, rq))
+    [] op = "ple" -> IR("int", BinReg("le", "ulong", rp, rq))
+    [] op = "pgt" -> IR("int", BinReg("lt", "ulong", rq, rp))
+    [] op = "pge" -> IR("int", BinReg("le", "ulong", rq, rp))
+    [] op = "peq" -> IR("int", BinReg("eq", "ulong", rp, rq))
+    [] OTHER      -> IR("int", BinReg("ne", "ulong", rp, rq))
+
 (* ======================================================================== *)
 (* Part 2: parse.c eval2 — constant folding in host int64_t arithmetic.     *)
 H(x) == S(U(x, WL), WL)                       \* host arithmetic wraps to int64_t
